@@ -62,6 +62,20 @@ def catalogue(g, rng):
     cat.append(('wrong-return-type', extra('zqbadret(x: MI): MI == "str";')))
     cat.append(('duplicate-definition', extra('zqnop(): () == {};')))
     cat.append(('use-of-unimported-domain-operation', extra('zqbadop(x: MI): MI == sin(x);')))
+    # defaulted parameters and keyword arguments (added after seeded change C06-unknown-keyword-arg)
+    DEF = 'zqdef(n: MI, factor: MI == 10): MI == n * factor;'
+    def both(stmt):
+        def f(site):
+            g2, kw = plant(stmt)(site)
+            kw = dict(kw); kw['extra_top'] = [DEF]
+            return g2, kw
+        return f
+    cat.append(('valid:keyword-and-default-calls', both('pM(zqdef(4)); pM(zqdef(4, 3)); pM(zqdef(4, factor == 3));')))
+    cat.append(('unknown-keyword-argument', both('pM(zqdef(4, zqstep == 3));')))
+    cat.append(('unknown-keyword-with-undefined-value', both('pM(zqdef(4, zqstep == zqnosuchname));')))
+    cat.append(('keyword-duplicates-positional', both('pM(zqdef(4, n == 3));')))
+    cat.append(('too-many-arguments-with-default', both('pM(zqdef(4, 3, 2));')))
+    cat.append(('keyword-value-of-wrong-type', both('pM(zqdef(4, factor == "str"));')))
     if g.consts:
         cat.append(('missing-category-export', lambda site: (copy.deepcopy(g), dict(drop_val=True))))
         cat.append(('operation-not-in-parameter-category', lambda site: (copy.deepcopy(g), dict(box_plus=True))))
@@ -107,12 +121,12 @@ def main():
         ft = fault_text(p)
         if p.timeout: ctx.violation('hang:%s' % kind, sd, files); continue
         if ft: ctx.violation('fault:%s' % kind, '%s: %s %s' % (sd, p.cause, ft), files); continue
-        if kind == 'valid':
+        if kind.startswith('valid'):
             if p.rc != 0 or b'(Error)' in blob or not all(f in left for f in ('x.ao', 'x.c', 'x.fm')):
                 m = re.search(rb'\(Error\) ([^\n]{0,70})', blob)
                 cl = re.sub(r"`[^']*'", "`..'", m.group(1).decode(errors='replace')) if m else 'outputs missing'
                 ctx.violation('valid-program-rejected:%s' % cl, '%s: exit %s, outputs %s\n%s' % (sd, p.rc, left, blob[-400:].decode(errors='replace')), files)
-            else: tall['valid-accepted'] = tall.get('valid-accepted', 0) + 1
+            else: tall[kind + '-accepted'] = tall.get(kind + '-accepted', 0) + 1
             continue
         if p.rc == 0:
             ctx.violation('ill-typed-accepted:%s' % kind, '%s with planted %s: exit 0' % (sd, kind), files); continue
